@@ -3617,9 +3617,12 @@ func (a *Association) handleIForwardTSN(chunkTSN *chunkIForwardTSN) []*packet {
 
 	for _, forwarded := range chunkTSN.streams {
 		if forwarded.unordered {
-			// Unordered messages have no delivery cursor; only an existing
-			// stream can hold fragments that need to be purged.
-			if s, ok := a.streams[forwarded.identifier]; ok {
+			// Fragments of the skipped message may still arrive (reordering,
+			// or the sender finished sending it before giving up), possibly
+			// as the first data ever seen on the stream. The stream has to
+			// remember the skip even if it does not exist yet, or it would
+			// hold such a fragment forever.
+			if s := a.getOrCreateStream(forwarded.identifier, true, PayloadTypeUnknown); s != nil {
 				s.handleForwardTSNForUnorderedMID(forwarded.messageIdentifier)
 			}
 
